@@ -751,5 +751,10 @@ def run(ctx, res):
     notes_r74(ctx, res)
     r75_measures_invariant(ctx, res)
     r76_item_access_plain(ctx, res)
+    # R7.7 positions and directions are not confused in move() and in the constructors it returns through (affine.py)
+    from ..affine import affine_scope, report_affine
+    roots = [m for c in ctx.repo.classes() if c.name in GEOM7 for m in c.methods.values() if m.name == "move"]
+    k7 = report_affine(ctx, res, "R7.7", affine_scope(ctx, roots, GEOM7), "the moved object")
+    ctx.require(res, "R7.7", k7, 20, "function contexts examined for position / direction mismatches")
     res.undecided_ob("move(v) then move(-v) restores an equal object (floating point); measures of the function volume() "
                      "(it goes through distance / intersection)")
